@@ -19,6 +19,8 @@ def net_cfg(R, topo, failfast=True, fresh=True, invariants=(), properties=(), sp
 def net_conformance(ck, name, count, seeds_per, salt, topos=NB.TOPOS):
     rnd = random.Random(ck.seed * 1000003 + salt)
     scs = NB.gen_scenarios(rnd, count, topos=topos)
+    if 'ens' in topos:
+        scs += NB.corner_scenarios()      # the id re-use window of D7, Server and AsyncServer
     items, n = [], 0
     for sc in scs:
         for j in range(seeds_per):
@@ -38,7 +40,7 @@ def net_conformance(ck, name, count, seeds_per, salt, topos=NB.TOPOS):
                        [(tlc.cfg_text(spec='TraceSpec', constants=dict(R=R, Topo=topo, FailFast=ff, FreshUid=True, NUids=64),
                                       constraint='Progress', postcondition='Report', deadlock=False), trs)
                         for (R, topo, ff), trs in sorted(groups.items())],
-                       sig_of=lambda t, v: {'topo': t['sc']['topo']})
+                       sig_of=lambda t, v: {'topo': t['sc']['topo'], 'flavour': t['sc'].get('flavour', 'sync')})
 
 
 def c02(ck, replay=None):
